@@ -170,7 +170,7 @@ def classes():
                     self.my_orders.append(o)
             taps.emit(
                 "consult_ret", agent=self, hft=isinstance(self, HighFrequencyAgent), orders=list(out),
-                snaps=[taps.snap_order(o) if isinstance(o, Order) else {"cancel_of": id(o.order)} for o in out],
+                snaps=[taps.snap_order(o) if isinstance(o, Order) else {"cancel_of": taps.snap_order(o.order)} for o in out],
                 time=markets[0].get_time(),
             )
             return out
